@@ -2,7 +2,7 @@ import Model.Bytes
 import Model.Xfr
 /-! driver ops of C13 (prefix `c13.`).
 
-`c13.run fix=<0|1> tr=<0|1> o=<name|none> t=<rdtype> s=<serial|none> u=<0|1> N=<name;name;…> Z=<rr;rr;…|-> M=<msg>|<msg>|…`
+`c13.run fix=<0|1> tr=<0|1> P=<0|1|2> o=<name|none> t=<rdtype> s=<serial|none> u=<0|1> N=<name;name;…> Z=<rr;rr;…|-> M=<msg>|<msg>|…`
   name  = comma separated hex labels (`-` = empty label), `@` = the empty name; lower-cased on input
   rr    = `<owner index into N>:<rdtype>:<ttl>:<serial>.<body>`
   rrset = `<owner index>:<rdtype>:<ttl>:<serial>.<body>,<serial>.<body>,…`
@@ -107,16 +107,21 @@ def traceLoop (fix : Bool) (s : Inbound) : List Msg → List String → List Str
 
 def runOp (toks : List String) : Option String :=
   match toks with
-  | [fx, tr, o, t, s, u, ns, z, ms] => do
+  | [fx, tr, pm, o, t, s, u, ns, z, ms] => do
     let fx ← stripKey "fix" fx
     let tr ← stripKey "tr" tr
+    let pm ← stripKey "P" pm
     let o ← stripKey "o" o
     let t ← (← stripKey "t" t).toNat?
     let s ← parseOptNat (← stripKey "s" s)
     let u ← stripKey "u" u
     let names ← parseList parseName (← stripKey "N" ns) ';'
     let z ← parseList (parseRR names) (← stripKey "Z" z) ';'
-    let msgs ← parseList (parseMsg names) (← stripKey "M" ms) '|'
+    let msgs0 ← parseList (parseMsg names) (← stripKey "M" ms) '|'
+    -- P=0: answers are given as the rrsets handed to process_message; P=1/2: as wire-order records, read
+    -- with one_rr_per_rrset = false / true
+    let msgs := if pm = "0" then msgs0
+      else msgs0.map fun m => { m with answer := parseAnswer (pm = "2") (recsOfAll m.answer) }
     let origin ← if o = "none" then some none else (parseName o).map some
     let fix := fx = "1"
     let cfg : Config := ⟨origin, t, s, u = "1"⟩
@@ -166,6 +171,14 @@ def handleC13 : List String → Option String
     let zs := if z0c == z1c then "=" else C13.showZone z1c
     let r := match out.err with | none => "ok" | some e => "err:" ++ e.toString
     some s!"R={r} Z={zs}"
+  | ["c13.parse", one, ns, rs] => do
+    let one ← C13.stripKey "one" one
+    let names ← C13.parseList C13.parseName (← C13.stripKey "N" ns) ';'
+    let rs ← C13.parseList (C13.parseRR names) (← C13.stripKey "R" rs) ';'
+    let out := parseAnswer (one = "1") rs
+    let showRs := fun (x : RRset) =>
+      s!"{(names.findIdx? (· == x.owner)).getD 9999}:{x.rdtype}:{x.ttl}:{",".intercalate (x.rdatas.map fun d => s!"{d.serial}.{d.body}")}"
+    some (if out.isEmpty then "-" else ";".intercalate (out.map showRs))
   | ["c13.xs", qt, auth] => do
     let qt ← qt.toNat?
     let auth ← C13.parseOptNat auth
